@@ -13,6 +13,7 @@ import json
 import multiprocessing
 import os
 import random
+import signal
 import subprocess
 import sys
 import time
@@ -130,7 +131,9 @@ def run_isolated(fn, *args, timeout=600):
         code = 0
         try:
             os.close(r)
-            faulthandler.dump_traceback_later(timeout, exit=True)
+            # no faulthandler watchdog here: it is a thread, and this child may fork again (a watchdog thread's lock
+            # copied into a grandchild deadlocks its next dump_traceback_later).  SIGALRM's default action ends a stuck child.
+            signal.alarm(int(timeout))
             try:
                 out = ('ok', fn(*args))
             except BaseException as e:
@@ -483,17 +486,21 @@ def write_evidence(module, batch, tier, seed, n_viol, known_lines, extra=None):
 # the check driver
 
 def run_check(module, tier, seed, workers=None, runs=None, verify_replay=True):
+    try:
+        return _run_check(module, tier, seed, workers, runs, verify_replay)
+    finally:
+        if hasattr(module, 'parent_fini'):
+            module.parent_fini()
+
+
+def _run_check(module, tier, seed, workers=None, runs=None, verify_replay=True):
     batch = Batch(module, tier, seed, workers=workers, runs=runs)
     print('check %s tier=%s seed=%d repo=%s workers=%d' % (module.ID, tier, seed, REPO, batch.workers))
     sys.stdout.flush()
     if hasattr(module, 'parent_init'):
         module.parent_init(tier, seed)
     try:
-        try:
-            batch.run()
-        finally:
-            if hasattr(module, 'parent_fini'):
-                module.parent_fini()
+        batch.run()
     except HarnessError as e:
         print('HARNESS-ERROR %s' % e)
         return 2
